@@ -95,9 +95,7 @@ def inspectLines (k : Kind) (m : Xml) : Except PyExc (List Line) :=
       match base.find "roSlug" with
       | none => .error .AttributeError
       | some slug =>
-        match storiesExc base with
-        | some e => .error e
-        | none => .ok (("RO: ", pyStr slug.text) :: each "STORY: " ((base.findall "story").map (fun s => elemId (some s) "storyID")))
+        .ok (("RO: ", pyStr slug.text) :: each "STORY: " ((base.findall "story").map (fun s => elemId (some s) "storyID")))
     | .StorySend =>
       match convertStorySend base with
       | .error e => .error e
